@@ -8,12 +8,13 @@ import obligations
 NOT_APPLICABLE = {
     'C20': 'equivalence of two storage backends and two crypto backends: the pinned build contains neither alternative (no SQLite store, no Botan) and the property is an equivalence between external binary libraries (OpenSSL/Botan, libsqlite3) that cannot be symbolically encoded; a differential test would address it, solver-based checking of the real code does not (DESIGN.md C20)',
 }
+HOLD = set(os.environ.get('MANIFEST_HOLD', '').split(','))   # properties whose obligations are still being built: not claimed yet
 PENDING = 'check not built yet in this round (planned, see DESIGN.md section 4); not claimed until its obligations run'
 props = [json.loads(l) for l in open(os.path.join(V, 'properties.jsonl'))]
 checks = []; na = []
 for p in props:
     pid = p['id']
-    if pid in obligations.OBLIGATIONS and obligations.OBLIGATIONS[pid]:
+    if pid in obligations.OBLIGATIONS and obligations.OBLIGATIONS[pid] and pid not in HOLD:
         m = obligations.META.get(pid, {})
         checks.append(dict(
             property_id=pid,
